@@ -110,22 +110,24 @@ def r1(repo, res):
     cg = cfg_of(g)
     reapply = [x for x in find_calls(g, "update") if x.args and isinstance(x.args[0], ast.Name)
                and x.args[0].id == pk and isinstance(x.func, ast.Attribute)]
-    removed = cg.prune(decide_with({kind_name(g): "dump", "cn_solution": None}))
     stage = find_calls(g, "estimate_cn")
-    ok = bool(reapply) and bool(stage) and all(
-        cg.is_reachable(cg.node_of(r), removed) for r in reapply) and any(
-        cg.dominates(cg.node_of(r), cg.node_of(stage[0]), removed) for r in reapply)
-    res.ob("C18.R1", g, reapply[0] if reapply else g, ok,
-           expected=f"on the dump route profile.update({pk}) runs before the first stage",
-           found="ok" if ok else "no dominating re-application of the parameters for kind == 'dump'",
-           key="dump-reapply")
-    # the re-application must come after the dump reader's resets: Sample(...) construction precedes it
     smp = [x for x in calls_in(g) if call_name(x) == "sam.Sample"]
-    if reapply and smp:
-        ok2 = all(any(cg.dominates(cg.node_of(s), cg.node_of(r), removed) for s in smp
-                      if cg.is_reachable(cg.node_of(s), removed)) for r in reapply)
-        res.ob("C18.R1", g, reapply[0], ok2, expected="re-application happens after the sample (and its dump profile) is loaded",
-               found="ok" if ok2 else "update precedes Sample construction", key="dump-reapply-order")
+    for cn_given in (None, ["1", "1"]):
+        tag = "|cn" if cn_given else ""
+        removed = cg.prune(decide_with({kind_name(g): "dump", "cn_solution": cn_given}))
+        ok = bool(reapply) and bool(stage) and all(
+            cg.is_reachable(cg.node_of(r), removed) for r in reapply) and any(
+            cg.dominates(cg.node_of(r), cg.node_of(stage[0]), removed) for r in reapply)
+        res.ob("C18.R1", g, reapply[0] if reapply else g, ok,
+               expected=f"on the dump route profile.update({pk}) runs before the first stage" + (" (also with a user-given structure)" if cn_given else ""),
+               found="ok" if ok else "no dominating re-application of the parameters for kind == 'dump'",
+               key="dump-reapply" + tag)
+        # the re-application must come after the dump reader's resets: Sample(...) construction precedes it
+        if reapply and smp:
+            ok2 = all(any(cg.dominates(cg.node_of(s), cg.node_of(r), removed) for s in smp
+                          if cg.is_reachable(cg.node_of(s), removed)) for r in reapply if cg.is_reachable(cg.node_of(r), removed))
+            res.ob("C18.R1", g, reapply[0], ok2, expected="re-application happens after the sample (and its dump profile) is loaded",
+                   found="ok" if ok2 else "update precedes Sample construction", key="dump-reapply-order" + tag)
 
     # (c) command line: _genotype.run forwards the --param pairs into genotype(**...)
     run = repo.func("__main__::_genotype.run")
